@@ -51,6 +51,11 @@ def gen_cases(chk):
     for ty, ln in ((8, 15), (9, 15), (8, 13), (6, 20), (5, 40), (2, 80)):
         for dk in (0, 2):
             cases.append("mem szMode=SZ_BEST_SPEED;quantization_intervals=256 C:%x:0,0,0,0,%x:%d:%x:%s/m:0/d:0" % (ty, ln, dk, 0x3dc5 + ty, dbits(200.0)))
+    # large incompressible arrays, stored verbatim and wrapped by the back end: the decoders unwrap them into a buffer sized from the element
+    # count and the header length (a 1 000 000-byte minimum hides anything below 125000 8-byte / 250000 4-byte elements)
+    for ty, nn in ((1, 125000), (1, 131072), (0, 262144), (9, 131072), (7, 262144)):
+        for cfg in ("-", "losslessCompressor=GZIP_COMPRESSOR"):
+            cases.append("mem %s c:%x:0:%s:%s:0:0,0,0,0,%x:7:%x:%s/d:0" % (cfg, ty, dbits(1e-300 if ty < 2 else 1.0), dbits(1e-3), nn, 0x51 + ty, dbits(1e18 if ty >= 2 else 1.0)))
     n = 300 if thorough else 60
     for i in range(n):
         cfg = rng.choice(CFGS)
@@ -98,7 +103,7 @@ def run(chk):
     ao = lib.run_cases(asan, cases, timeout=3000, env={"ASAN_OPTIONS": "detect_leaks=0:abort_on_error=0:allocator_may_return_null=1:detect_stack_use_after_return=1"})
     nfail = nbad = 0
     # a third pass under valgrind memcheck (it sees overruns that stay inside ASan's redzone-free zones, e.g. into a neighbouring live block)
-    sub = cases if chk.tier == "thorough" else cases[:6] + [c for i, c in enumerate(cases[14:]) if i % 2 == 1][:24]
+    sub = cases if chk.tier == "thorough" else cases[:6] + cases[14:15] + [c for i, c in enumerate(cases[24:]) if i % 2 == 1][:24]
     vdir = lib.scratch("szv-c10-")
     wrap, vlog = os.path.join(vdir, "vg.sh"), os.path.join(vdir, "vg.log")
     with open(wrap, "w") as f:
